@@ -478,7 +478,14 @@ def rule_receiver_table(check):
         if n.get("k") == "Struct" and (n["res"].get("path") or "").endswith("CsiMethods"):
             for fld in n["fields"]:
                 if fld["name"] == "method_with_literal_callers":
-                    vals = sorted(x["lit"]["v"] for x in hir.walk(fld["e"]) if x.get("k") == "Lit" and x["lit"]["t"] == "str")
+                    src_e = fld["e"]
+                    d_ = hir.def_path_of(hir.peel_transparent(src_e))
+                    if d_:
+                        # a named constant: its initialiser
+                        for cp_, crec in prog.consts.items():
+                            if cp_ == d_ or cp_.endswith("::" + d_.split("::")[-1]) and d_.split("::")[-1] == cp_.split("::")[-1]:
+                                src_e = crec["body"]
+                    vals = sorted(x["lit"]["v"] for x in hir.walk(src_e) if x.get("k") == "Lit" and x["lit"]["t"] == "str")
                     sets.append((n, vals))
     check.floor(R, "method_with_literal_callers initialisers", len(sets), 1)
     want = sorted(["concat", "replace", "replaceAll", "padStart", "padEnd", "repeat"])
